@@ -11,7 +11,7 @@ PROP = dict(
     needs_csvq=True,
     kinds={
         1: ("trace-mismatch", "no run of the life-cycle model (Model/Cleanup.v run_process; for signalled runs: cancelled at any step) issues the mutating system calls the real binary issued on the repository (strace)", False),
-        2: ("state-mismatch", "the directory found after the process ended differs from the model's final directory for the run with the same trace", True),
+        2: ("state-mismatch", "the directory found after the process ended differs from the model's final directory for the run with the same trace", False),
         3: ("leftover", "after the process ended the repository contains a control file that was not there before (lock / rlock / temp), lost a competing holder's control file, or contains a table created by a transaction that did not commit (decidable spec Cleanup.no_leftovers on the directory found)", True),
         4: ("read-only-mutation", "a program consisting of reading statements issued a call that can change a data file, or a data file's bytes or mtime changed", True),
     },
